@@ -176,6 +176,16 @@ pub fn run(run: &Arc<Run>) {
         run.absorb(l);
         return;
     }
+    // beyond the exhaustive range: a few large populations (all k), where implementations with
+    // large-sample shortcuts change regime
+    let big: Vec<usize> = if run.cfg.quick() { vec![1000, 1500, 2500, 5000] } else { vec![2500, 3000, 5000, 7500, 10_000, 20_000] };
+    let few_levels: Vec<f64> = vec![0.3, 0.8, 0.95, 0.99];
+    run.par(big.len() as u64 * 6, |i, l| {
+        let n = big[(i / 6) as usize];
+        let m = [Method::Wilson, Method::Wald][(i % 6 / 3) as usize];
+        l.count("large population judged");
+        judge(m, n, KINDS[(i % 3) as usize], &few_levels, l);
+    });
     let ns = (nmax - 3) as u64;
     run.par(ns * 9, |i, l| {
         let n = nmax - (i / 9) as usize;
@@ -187,6 +197,6 @@ pub fn run(run: &Arc<Run>) {
         }
         judge(m, n, KINDS[j % 3], &levels, l);
     });
-    run.require(&["monotone-in-k judged", "mirror judged", "midpoint judged", "level-monotone judged", "shrink judged"]);
+    run.require(&["monotone-in-k judged", "mirror judged", "midpoint judged", "level-monotone judged", "shrink judged", "large population judged"]);
     let _: Option<Value> = None;
 }
